@@ -46,6 +46,12 @@ HISTORY = {
     'R6-F': 'sixth round (area: msgWriter / writeFrameHeader); caught at the first trial (streamed message whose first chunk is below the threshold)',
     'R6-G': 'sixth round (area: readFrameHeader / readLoop checks); caught at the first trial (RSV2 / RSV3 with negotiated compression)',
     'R6-H': 'sixth round (area: mask.go); caught at the first trial (length x alignment grid of the mask suite)',
+    'R7-A': 'seventh round (area: close / CloseNow / waitGoroutines). First trial: MISSED (the join of the CloseRead goroutine was skipped only when the context given to CloseRead was already cancelled; the goroutine is then late by microseconds) → life scenario `closeread-parent-cancelled-closenow` (60 rounds of CloseRead(ctx); cancel(); CloseNow() on fresh connections, the exit hook must precede the return of CloseNow)',
+    'R7-B': 'seventh round (area: timeoutLoop / arming of the timeouts); caught at the first trial (the arming discipline read off the hook trace: a frame written without its own arm / clear)',
+    'R7-C': 'seventh round (area: Conn.ping / pong branch of handleControl); First trial: reported, but WITHOUT a failing input (the library panicked on one of its own goroutines — the CloseRead goroutine — and took the harness process down: `no-failing-input-found`) → the harness keeps a journal of started / finished cases and the orchestrator re-runs the cases that were running one by one: the case that kills the process is the replay (`ping:library-panic`)',
+    'R7-D': 'seventh round (area: locks of the streaming write path); caught at the first trial (race detector run of the sched suite, and the replay: foreign unlock)',
+    'R7-E': 'seventh round (area: end of a compressed message); caught at the first trial (cut sweep inside the final frame of compressed messages)',
+    'R7-F': 'seventh round (area: limitReader.Read); caught at the first trial (limit+1 bytes ending in a BFINAL block)',
     'R2-C19': 'second round. Caught at the first trial, but only by chance (two wsjson cases of the same run happened to share the doubly pooled buffer): the final regression over all seeded changes missed it once → wsjson kind `overlap` (a rejected document, then two overlapping reads on other connections under GOMAXPROCS(1)) makes it deterministic',
     'R2-C04': 'second round, first trial: MISSED (the sweep of cut offsets used only 7-bit frame lengths) → header-region cut sweep over every length encoding and order (16-bit first on a fresh connection, after a 64-bit one, after a multiple of 256), both roles, both endings',
     'R2-C07': 'second round, first trial: MISSED (the suite always read a message to its end before the next one) → histories that start the next message after reading only a prefix of a small compressed one (`msgnf` / `plainnf`); the replay then reports `put-by-non-holder`',
@@ -59,7 +65,7 @@ HISTORY = {
 }
 print('| seeded change (property it breaks) | what it does | what it needs to show | confirmed | checks run on it → result (current machinery) | history |')
 print('|---|---|---|---|---|---|')
-for d in sorted(glob.glob(os.path.join(ROOT, 'seeded', 'C*'))) + sorted(glob.glob(os.path.join(ROOT, 'seeded', 'R2-C*'))) + sorted(glob.glob(os.path.join(ROOT, 'seeded', 'R3-*'))) + sorted(glob.glob(os.path.join(ROOT, 'seeded', 'R4-*'))) + sorted(glob.glob(os.path.join(ROOT, 'seeded', 'R5-*'))) + sorted(glob.glob(os.path.join(ROOT, 'seeded', 'R6-*'))):
+for d in sorted(glob.glob(os.path.join(ROOT, 'seeded', 'C*'))) + sorted(glob.glob(os.path.join(ROOT, 'seeded', 'R2-C*'))) + sorted(glob.glob(os.path.join(ROOT, 'seeded', 'R3-*'))) + sorted(glob.glob(os.path.join(ROOT, 'seeded', 'R4-*'))) + sorted(glob.glob(os.path.join(ROOT, 'seeded', 'R5-*'))) + sorted(glob.glob(os.path.join(ROOT, 'seeded', 'R6-*'))) + sorted(glob.glob(os.path.join(ROOT, 'seeded', 'R7-*'))):
     sid = os.path.basename(d)
     try:
         meta = json.load(open(os.path.join(d, 'meta.json')))
